@@ -19,6 +19,8 @@ def run(ctx: Ctx):
     # a fixed grid first: a threshold low enough to discard readings of this data set, so that the two settings of
     # innovation_filtering score differently, and two values of the second hyper-parameter
     runs = [{"grid": {"process_noise": [0.5], "sensor_noise": [0.5], "innovation_filtering": [None, 1.0], "max_dt_sec": [0.1, 0.05]}, "n_rows": 10, "seed": 7}]
+    # a grid whose only candidate is "falsy" (filtering disabled): it is still the supplied grid
+    runs.append({"grid": {"process_noise": [0.5], "sensor_noise": [0.5], "innovation_filtering": [None], "max_dt_sec": [0.2]}, "n_rows": 8, "seed": 11})
     for i in range(n_runs):
         runs.append({"grid": {"process_noise": ctx.rng.sample([0.25, 0.5, 1.0, 2.0], 1), "sensor_noise": ctx.rng.sample([0.25, 0.5, 1.0], 1),
                               "innovation_filtering": ctx.rng.sample([None, 2.0, 4.0, 6.0], 2), "max_dt_sec": ctx.rng.sample([0.05, 0.1, 0.2], 2)},
